@@ -1,6 +1,6 @@
 (* C15 -- property theorems only.  Proofs live in C15/Proofs*.v. *)
 From Coq Require Import NArith List.
-From DV Require Import Base.Outcome C15.Gen C15.Model C15.Proofs C15.ProofsSeq C15.ProofsNet C15.ProofsDemux C15.ProofsXfr.
+From DV Require Import Base.Outcome C15.Gen C15.Model C15.Proofs C15.ProofsSeq C15.ProofsNet C15.ProofsDemux C15.ProofsXfr C15.ProofsConn.
 Import ListNotations.
 Local Open Scope N_scope.
 
@@ -177,10 +177,10 @@ Theorem C15_axfr_single_message_complete : forall e a s others,
 Proof. exact axfr_single_message_complete. Qed.
 Print Assumptions C15_axfr_single_message_complete.
 
-Theorem C15_multi_element_once : forall cs idle s m s' e,
+Theorem C15_multi_element_once : forall cs s m s' e,
   q_inv (st_q s) -> st_conn s = COpen ->
   q_get (st_q s) (m_id m) = Some e -> e_multi e = true ->
-  s_step cs idle s (EReply m) = Ok s' ->
+  s_step cs s (EReply m) = Ok s' ->
   (forall c, elems c (st_log s') = elems c (st_log s) + (if e_caller e =? c then 1 else 0)) /\
   (fst (fst (cs e m)) = false ->
      exists e', q_get (st_q s') (m_id m) = Some e' /\ e_caller e' = e_caller e /\ e_qs e' = e_qs e /\
@@ -188,3 +188,106 @@ Theorem C15_multi_element_once : forall cs idle s m s' e,
   (fst (fst (cs e m)) = true -> q_get (st_q s') (m_id m) = None).
 Proof. exact multi_element_once. Qed.
 Print Assumptions C15_multi_element_once.
+
+(* ---- idle timeout, edns-tcp-keepalive, pinned constants ---- *)
+Theorem C15_idle_closes_iff : forall resp idle since now,
+  run_tick resp idle (TIdle since) now = TIdleTimeout <-> idle <= now - since.
+Proof. exact idle_closes_iff. Qed.
+Print Assumptions C15_idle_closes_iff.
+
+Theorem C15_idle_closes_after_sleep : forall resp idle since now,
+  since <= now ->
+  run_tick resp idle (TIdle since) (now + run_sleep resp idle (TIdle since) now) = TIdleTimeout.
+Proof. exact idle_closes_after_sleep. Qed.
+Print Assumptions C15_idle_closes_after_sleep.
+
+Theorem C15_response_timeout_fires_iff : forall resp idle start now,
+  run_tick resp idle (TActive (Some start)) now = TReadTimeout <-> resp < now - start.
+Proof. exact response_timeout_fires_iff. Qed.
+Print Assumptions C15_response_timeout_fires_iff.
+
+Theorem C15_keepalive_spec : forall idle v now,
+  keepalive_idle idle None = idle /\ keepalive_idle idle (Some None) = idle /\
+  keepalive_idle idle (Some (Some v)) = 100 * v /\
+  (go_idle (keepalive_idle idle (Some (Some v))) now = TIdleTimeout <-> v = 0).
+Proof. exact keepalive_spec. Qed.
+Print Assumptions C15_keepalive_spec.
+
+Theorem C15_keepalive_idle_zero_consistent : forall iz idle ka,
+  iz = (idle =? 0) -> keepalive_idle_zero iz ka = (keepalive_idle idle ka =? 0).
+Proof. exact keepalive_idle_zero_consistent. Qed.
+Print Assumptions C15_keepalive_idle_zero_consistent.
+
+Theorem C15_recv_loop_at_deadline : forall T r pkts, recv_loop T r T pkts = RTimeout.
+Proof. exact recv_loop_at_deadline. Qed.
+Print Assumptions C15_recv_loop_at_deadline.
+
+Theorem C15_constants_pinned :
+  dgram_attempts dgram_retries_max <= 255 /\ dgram_retries_default <= dgram_retries_max /\
+  dgram_attempts dgram_retries_default * dgram_timeout_default_ms = 30000 /\
+  dgram_attempts dgram_retries_max * dgram_timeout_max_ms = 6060000 /\
+  0 < dgram_timeout_min_ms /\
+  (forall T, dgram_loop_cond T T = false /\ dgram_loop_cond (T + 1) T = true) /\
+  stream_timeout_default_ms = 19000 /\ stream_limit 0 = 1 /\ stream_limit 1000000000 = 600000 /\
+  (forall t, stream_timeout_min_ms <= stream_limit t <= stream_timeout_max_ms) /\
+  idle_timeout_default_ms = 10000 /\ idle_timeout_max_ms = 3600000 /\
+  idle_timeout_default_ms <= idle_timeout_max_ms /\ idx_limit = 65536.
+Proof. exact constants_pinned. Qed.
+Print Assumptions C15_constants_pinned.
+
+Theorem C15_idle_keepalive_zero_closes : forall cs s m,
+  q_inv (st_q s) -> st_conn s = COpen -> st_idle s = true ->
+  q_get (st_q s) (m_id m) = None -> m_ka m = Some (Some 0) ->
+  exists s', s_step cs s (EReply m) = Ok s' /\ st_conn s' = CDown 10 /\ st_log s' = st_log s.
+Proof. exact idle_keepalive_zero_closes. Qed.
+Print Assumptions C15_idle_keepalive_zero_closes.
+
+(* ---- multi_stream connection management ---- *)
+Theorem C15_ms_backoff_respected : forall s opt_id now retries timer timeout,
+  ms_conn s = MErr retries timer timeout -> now - timer < timeout ->
+  ms_newconn s opt_id now = (s, MReplyErr).
+Proof. exact ms_backoff_respected. Qed.
+Print Assumptions C15_ms_backoff_respected.
+
+Theorem C15_ms_reuse : forall s c opt_id now,
+  ms_conn s = MSome c -> (forall id, opt_id = Some id -> id < ms_id s) ->
+  ms_newconn s opt_id now = (s, MReplyOk (ms_id s) c).
+Proof. exact ms_reuse. Qed.
+Print Assumptions C15_ms_reuse.
+
+Theorem C15_ms_stale_reconnects : forall s c id now,
+  ms_conn s = MSome c -> ms_id s <= id ->
+  ms_newconn s (Some id) now = (mkMs MNone (ms_id s + 1), MConnect).
+Proof. exact ms_stale_reconnects. Qed.
+Print Assumptions C15_ms_stale_reconnects.
+
+Theorem C15_ms_connect_no_panic : forall s opt_id now s1 res t backoff,
+  ms_newconn s opt_id now = (s1, MConnect) ->
+  exists s2 rep, ms_connected s1 res t backoff = Ok (s2, rep) /\
+    match res with
+    | Some c => rep = MReplyOk (ms_id s1) c /\ ms_conn s2 = MSome c
+    | None => rep = MReplyErr /\ exists r, ms_conn s2 = MErr r t backoff
+    end.
+Proof. exact ms_connect_no_panic. Qed.
+Print Assumptions C15_ms_connect_no_panic.
+
+Theorem C15_ms_retry_cap_values :
+  ms_retry_cap_ms 0 = 1000 /\ ms_retry_cap_ms 1 = 2000 /\ ms_retry_cap_ms 6 = 64000 /\
+  ms_retry_cap_ms 7 = 60000 /\ (forall r, 6 < r -> ms_retry_cap_ms r = 60000).
+Proof. exact ms_retry_cap_values. Qed.
+Print Assumptions C15_ms_retry_cap_values.
+
+(* ---- redundant: the result handed to the caller ---- *)
+Theorem C15_red_step_ok : forall defer_err n s ev, r_ok n s ->
+  match r_step defer_err n s ev with
+  | Ok (inl s') => r_ok n s'
+  | Ok (inr fin) => r_final_ok defer_err s ev fin
+  | _ => False
+  end.
+Proof. exact r_step_ok. Qed.
+Print Assumptions C15_red_step_ok.
+
+Theorem C15_red_run_no_panic : forall defer_err n (evs : list revent), 0 < n ->
+  match r_run defer_err n r_init evs with Ok _ => True | _ => False end.
+Proof. exact red_run_no_panic. Qed.
+Print Assumptions C15_red_run_no_panic.
